@@ -77,6 +77,13 @@ def cases(thorough):
         for wu, pu, box in [("m", "cm", 1.0), ("cm", "m", 4.0), ("au", "cm", 3.0e13)]:
             for w in (1 / 4, 1.0):
                 yield dict(base, block="B", dx=w, resolution=3, direction="z", origin=origins[0], win_unit=wu, pos_unit=pu, box=box)
+        # coordinates of very small and very large numerical magnitude in their own unit (an au-scale box stored in kpc, nanometre cells
+        # stored in metres, a box of 1e9 pc): nothing is "close to zero" or "close to equal" on an absolute scale
+        for wu, pu, box in [("kpc", "kpc", 2.0**-26), ("au", "kpc", 2.0**-26), ("m", "m", 2.0**-30), ("pc", "pc", 2.0**30)]:
+            for o in origins[:3]:
+                yield dict(base, block="B", dx=1 / 2, resolution=4, direction="z", origin=o, win_unit=wu, pos_unit=pu, box=box)
+            if ndim == 3:
+                yield dict(base, block="B", dx=1 / 2, resolution=3, direction=["normal", [1, 2, 3]], origin=origins[1], win_unit=wu, pos_unit=pu, box=box)
         # the origin written in another unit than the positions (and than the window)
         for ou, pu, box in [("m", "cm", 1.0), ("km", "cm", 4.0), ("cm", "m", 2.0)]:
             for o in origins[1:3]:
